@@ -85,6 +85,7 @@ func lemmaCall(fn *ssa.Function, inputs []NamedTerm, model map[string]string, im
 		return p.Name()
 	}
 	k := 0
+	strVals := map[string]string{}
 	byName := map[string]NamedTerm{}
 	for _, in := range inputs {
 		byName[in.Name] = in
@@ -143,7 +144,15 @@ func lemmaCall(fn *ssa.Function, inputs []NamedTerm, model map[string]string, im
 					val = "0"
 				}
 			}
-			if isString(t) || isFloat(t) {
+			if isString(t) {
+				// strings are an uninterpreted sort: distinct model values become distinct Go strings
+				// (sound for lemmas that only compare strings for equality)
+				if _, seen := strVals[val]; !seen {
+					strVals[val] = fmt.Sprintf("s%d", len(strVals))
+				}
+				return fmt.Sprintf("%s(%q)", types.TypeString(t, qual), strVals[val]), nil
+			}
+			if isFloat(t) {
 				return "", fmt.Errorf("parameter of type %s cannot be rebuilt from a model", t)
 			}
 			s, ok := goLiteral(t, val, qual)
